@@ -1,27 +1,1324 @@
-//! C13 — not built yet (stub so that the binary links; `./check C13` reports INFRA until replaced).
+//! C13 — operators parse with the documented precedence and associativity (round trip + value).
+//!
+//! Cases are *own* expression trees (`E`), never the parser's AST. Every tree is rendered twice from the
+//! documented table only — with the minimal parentheses the table requires and fully parenthesised — and
+//! both texts go through the real `sylt_parser::tree`. The parsed expression (spans, `Parenthesis` nodes and
+//! `AssignableKind::Expression` wrappers erased) must equal the generating tree for both renderings. For the
+//! well-typed sub-family both renderings are also compiled and run; they must print what an independent
+//! evaluation of the generating tree predicts.
+//!
+//! Where the table is silent the renderer writes parentheses in *both* renderings (see `min_text`):
+//! unary next to `* /` on either side, unary applied to unary, unary applied to a `* /` node, a numeric
+//! literal as the receiver of `.field` (lexical: `1.a`), and a then-branch that ends in a blob literal
+//! (`} else` is rejected by the parser as "Parsed a blob not an if-statement" — Appendix A).
 use arbitrary::Unstructured;
-use vcore::{Check, Labels, Plan, Tier, Verdict};
+use serde::{Deserialize, Serialize};
+use serde_json::{json, Value};
+use std::collections::BTreeMap;
+use std::path::Path;
+use std::sync::atomic::{AtomicUsize, Ordering};
+use sylt_parser::expression::ComparisonKind;
+use sylt_parser::{Assignable, AssignableKind, Expression, ExpressionKind as EK, Statement, StatementKind, TypeAssignableKind};
+use vcore::luarun::{run_lua, LuaOutcome, Terminal};
+use vcore::{compile, guarded, hash64, Check, Found, Labels, Outcome, Plan, Project, RunCfg, Stats, Step, Tape, Tier, Verdict};
 
-pub struct Stub;
-pub const CHECK: Stub = Stub;
-pub fn plan(_t: Tier) -> Plan {
-    Plan::new(1, 16)
+pub struct C13;
+pub const CHECK: C13 = C13;
+pub fn plan(t: Tier) -> Plan {
+    Plan::new(t.pick(103_000, 3_060_000), 320)
 }
-impl Check for Stub {
-    type Case = u8;
+
+// ------------------------------------------------------------------------------------------------
+// the tree type
+// ------------------------------------------------------------------------------------------------
+
+#[derive(Clone, Copy, Debug, PartialEq, Eq, Serialize, Deserialize)]
+pub enum B {
+    Assert,
+    Or,
+    And,
+    Eq,
+    Ne,
+    Lt,
+    Le,
+    Gt,
+    Ge,
+    Add,
+    Sub,
+    Mul,
+    Div,
+}
+pub const ALL_BIN: [B; 13] = [B::Assert, B::Or, B::And, B::Eq, B::Ne, B::Lt, B::Le, B::Gt, B::Ge, B::Add, B::Sub, B::Mul, B::Div];
+/// one or two operators per level (two where mixing inside a level matters for associativity)
+pub const CLASS_BIN: [B; 9] = [B::Assert, B::Or, B::And, B::Eq, B::Lt, B::Add, B::Sub, B::Mul, B::Div];
+const FACTOR: u8 = 6;
+
+impl B {
+    /// the documented table: `<=>` loosest (1), `or`, `and`, comparisons, `+ -`, `* /` tightest (6)
+    pub fn level(self) -> u8 {
+        match self {
+            B::Assert => 1,
+            B::Or => 2,
+            B::And => 3,
+            B::Eq | B::Ne | B::Lt | B::Le | B::Gt | B::Ge => 4,
+            B::Add | B::Sub => 5,
+            B::Mul | B::Div => FACTOR,
+        }
+    }
+    pub fn text(self) -> &'static str {
+        match self {
+            B::Assert => "<=>",
+            B::Or => "or",
+            B::And => "and",
+            B::Eq => "==",
+            B::Ne => "!=",
+            B::Lt => "<",
+            B::Le => "<=",
+            B::Gt => ">",
+            B::Ge => ">=",
+            B::Add => "+",
+            B::Sub => "-",
+            B::Mul => "*",
+            B::Div => "/",
+        }
+    }
+    pub fn class(self) -> &'static str {
+        match self.level() {
+            1 => "assert",
+            2 => "or",
+            3 => "and",
+            4 => "comp",
+            5 => "term",
+            _ => "factor",
+        }
+    }
+}
+
+#[derive(Clone, Copy, Debug, PartialEq, Eq, Serialize, Deserialize)]
+pub enum U {
+    Neg,
+    Not,
+}
+impl U {
+    fn text(self) -> &'static str {
+        match self {
+            U::Neg => "-",
+            U::Not => "not ",
+        }
+    }
+}
+
+#[derive(Clone, Debug, PartialEq, Serialize, Deserialize)]
+pub enum E {
+    // atoms
+    Name(String),
+    Int(i64),
+    Float(f64),
+    Str(String),
+    Bool(bool),
+    Nil,
+    Tuple(Vec<E>),
+    List(Vec<E>),
+    /// `fn p.. -> do body end` (`fn do body end` without parameters)
+    Lambda(Vec<String>, Box<E>),
+    /// `if c do t else e end`
+    If(Box<E>, Box<E>, Box<E>),
+    /// `Name { f: e, .. }`
+    Blob(String, Vec<(String, E)>),
+    // operators
+    Un(U, Box<E>),
+    Bin(B, Box<E>, Box<E>),
+    // postfix
+    Call(Box<E>, Vec<E>),
+    Index(Box<E>, i64),
+    Field(Box<E>, String),
+}
+
+fn name(s: &str) -> E {
+    E::Name(s.to_string())
+}
+fn bin(op: B, l: E, r: E) -> E {
+    E::Bin(op, Box::new(l), Box::new(r))
+}
+fn un(op: U, x: E) -> E {
+    E::Un(op, Box::new(x))
+}
+
+impl E {
+    fn is_operator(&self) -> bool {
+        matches!(self, E::Un(..) | E::Bin(..))
+    }
+    fn is_postfix(&self) -> bool {
+        matches!(self, E::Call(..) | E::Index(..) | E::Field(..))
+    }
+    /// atomic for the purpose of "fully parenthesised": literals, names and self-delimiting forms
+    fn is_atomic(&self) -> bool {
+        !self.is_operator() && !self.is_postfix()
+    }
+    fn class(&self) -> &'static str {
+        match self {
+            E::Bin(op, ..) => op.class(),
+            E::Un(..) => "unary",
+            E::Call(..) | E::Index(..) | E::Field(..) => "postfix",
+            _ => "atom",
+        }
+    }
+    fn kind_label(&self) -> &'static str {
+        match self {
+            E::Name(_) => "name",
+            E::Int(_) => "int",
+            E::Float(_) => "float",
+            E::Str(_) => "str",
+            E::Bool(_) => "bool",
+            E::Nil => "nil",
+            E::Tuple(_) => "tuple",
+            E::List(_) => "list",
+            E::Lambda(..) => "lambda",
+            E::If(..) => "if",
+            E::Blob(..) => "blob",
+            E::Un(U::Neg, _) => "neg",
+            E::Un(U::Not, _) => "not",
+            E::Bin(op, ..) => op.class(),
+            E::Call(..) => "call",
+            E::Index(..) => "index",
+            E::Field(..) => "field",
+        }
+    }
+    fn kids(&self) -> Vec<&E> {
+        match self {
+            E::Name(_) | E::Int(_) | E::Float(_) | E::Str(_) | E::Bool(_) | E::Nil => Vec::new(),
+            E::Tuple(v) | E::List(v) => v.iter().collect(),
+            E::Lambda(_, b) => vec![&**b],
+            E::If(c, t, e) => vec![&**c, &**t, &**e],
+            E::Blob(_, fs) => fs.iter().map(|(_, e)| e).collect(),
+            E::Un(_, x) => vec![&**x],
+            E::Bin(_, l, r) => vec![&**l, &**r],
+            E::Call(f, args) => std::iter::once(&**f).chain(args.iter()).collect(),
+            E::Index(x, _) | E::Field(x, _) => vec![&**x],
+        }
+    }
+    fn kids_mut(&mut self) -> Vec<&mut E> {
+        match self {
+            E::Name(_) | E::Int(_) | E::Float(_) | E::Str(_) | E::Bool(_) | E::Nil => Vec::new(),
+            E::Tuple(v) | E::List(v) => v.iter_mut().collect(),
+            E::Lambda(_, b) => vec![&mut **b],
+            E::If(c, t, e) => vec![&mut **c, &mut **t, &mut **e],
+            E::Blob(_, fs) => fs.iter_mut().map(|(_, e)| e).collect(),
+            E::Un(_, x) => vec![&mut **x],
+            E::Bin(_, l, r) => vec![&mut **l, &mut **r],
+            E::Call(f, args) => std::iter::once(&mut **f).chain(args.iter_mut()).collect(),
+            E::Index(x, _) | E::Field(x, _) => vec![&mut **x],
+        }
+    }
+    fn with_kid(&self, i: usize, new: E) -> E {
+        let mut c = self.clone();
+        if let Some(slot) = c.kids_mut().into_iter().nth(i) {
+            *slot = new;
+        }
+        c
+    }
+    /// same node ignoring the children (variant, operator, payload, number of children)
+    fn shallow_eq(&self, o: &E) -> bool {
+        match (self, o) {
+            (E::Tuple(a), E::Tuple(b)) | (E::List(a), E::List(b)) => a.len() == b.len(),
+            (E::Lambda(p, _), E::Lambda(q, _)) => p == q,
+            (E::If(..), E::If(..)) => true,
+            (E::Blob(n, f), E::Blob(m, g)) => n == m && f.len() == g.len() && f.iter().zip(g).all(|(a, b)| a.0 == b.0),
+            (E::Un(a, _), E::Un(b, _)) => a == b,
+            (E::Bin(a, ..), E::Bin(b, ..)) => a == b,
+            (E::Call(_, a), E::Call(_, b)) => a.len() == b.len(),
+            (E::Index(_, a), E::Index(_, b)) => a == b,
+            (E::Field(_, a), E::Field(_, b)) => a == b,
+            (a, b) if a.kids().is_empty() && b.kids().is_empty() => a == b,
+            _ => false,
+        }
+    }
+    fn size(&self) -> usize {
+        1 + self.kids().iter().map(|k| k.size()).sum::<usize>()
+    }
+    /// nesting depth of unary/binary operators
+    fn op_depth(&self) -> usize {
+        let k = self.kids().iter().map(|k| k.op_depth()).max().unwrap_or(0);
+        k + if self.is_operator() { 1 } else { 0 }
+    }
+    fn visit<'a>(&'a self, f: &mut dyn FnMut(&'a E)) {
+        f(self);
+        for k in self.kids() {
+            k.visit(f);
+        }
+    }
+}
+
+// ------------------------------------------------------------------------------------------------
+// the two renderings (from the documented table only)
+// ------------------------------------------------------------------------------------------------
+
+fn paren(s: String) -> String {
+    format!("({})", s)
+}
+
+/// Text of an atom / of the postfix part of a postfix node; `sub` renders a sub-expression that stands in a
+/// position where precedence starts afresh (element, argument, field value, condition, branch, body).
+fn atom_text(e: &E, sub: &dyn Fn(&E) -> String) -> String {
+    let list = |v: &[E]| v.iter().map(|x| sub(x)).collect::<Vec<_>>().join(", ");
+    match e {
+        E::Name(n) => n.clone(),
+        E::Int(i) => format!("{}", i),
+        E::Float(f) => format!("{:?}", f),
+        E::Str(s) => format!("\"{}\"", s),
+        E::Bool(b) => format!("{}", b),
+        E::Nil => "nil".into(),
+        E::Tuple(v) if v.len() == 1 => format!("({},)", sub(&v[0])),
+        E::Tuple(v) => format!("({})", list(v)),
+        E::List(v) => format!("[{}]", list(v)),
+        E::Lambda(ps, b) if ps.is_empty() => format!("fn do {} end", sub(b)),
+        E::Lambda(ps, b) => format!("fn {} -> do {} end", ps.join(", "), sub(b)),
+        E::If(c, t, f) => {
+            let mut tt = sub(t);
+            if tt.ends_with('}') {
+                // `B { .. } else` is rejected by the parser on purpose (Appendix A): not a precedence question
+                tt = paren(tt);
+            }
+            format!("if {} do {} else {} end", sub(c), tt, sub(f))
+        }
+        E::Blob(n, fs) if fs.is_empty() => format!("{} {{}}", n),
+        E::Blob(n, fs) => format!("{} {{ {} }}", n, fs.iter().map(|(k, v)| format!("{}: {}", k, sub(v))).collect::<Vec<_>>().join(", ")),
+        _ => unreachable!("not an atom"),
+    }
+}
+
+fn postfix_suffix(e: &E, sub: &dyn Fn(&E) -> String) -> String {
+    match e {
+        E::Call(_, args) => format!("({})", args.iter().map(|x| sub(x)).collect::<Vec<_>>().join(", ")),
+        E::Index(_, i) => format!("[{}]", i),
+        E::Field(_, n) => format!(".{}", n),
+        _ => unreachable!(),
+    }
+}
+fn receiver(e: &E) -> &E {
+    match e {
+        E::Call(r, _) | E::Index(r, _) | E::Field(r, _) => r,
+        _ => unreachable!(),
+    }
+}
+/// `1.a` / `2.5.a` are a question for the tokenizer, not for the table: always parenthesised
+fn lexical_receiver_paren(e: &E) -> bool {
+    matches!(e, E::Field(r, _) if matches!(**r, E::Int(_) | E::Float(_)))
+}
+
+/// minimal parentheses: only what the table requires, plus the "table is silent" cases
+pub fn min_text(e: &E) -> String {
+    match e {
+        E::Bin(op, l, r) => {
+            let side = |c: &E, right: bool| -> String {
+                let need = match c {
+                    // looser child needs parentheses; equal level on the right because of left associativity
+                    E::Bin(cop, ..) => {
+                        if right {
+                            cop.level() <= op.level()
+                        } else {
+                            cop.level() < op.level()
+                        }
+                    }
+                    // unary binds tighter than `+ -`, comparisons, `and`, `or` (hence also `<=>`);
+                    // the table is silent on unary next to `* /`: parenthesise
+                    E::Un(..) => op.level() == FACTOR,
+                    _ => false,
+                };
+                let s = min_text(c);
+                if need {
+                    paren(s)
+                } else {
+                    s
+                }
+            };
+            format!("{} {} {}", side(l, false), op.text(), side(r, true))
+        }
+        E::Un(op, x) => {
+            // operand that is a binary operator: required for levels below unary, silent for `* /`;
+            // operand that is a unary operator: silent. Postfix and atoms bind tighter: no parentheses.
+            let s = min_text(x);
+            format!("{}{}", op.text(), if x.is_operator() { paren(s) } else { s })
+        }
+        E::Call(..) | E::Index(..) | E::Field(..) => {
+            let r = receiver(e);
+            let s = min_text(r);
+            let rs = if r.is_operator() || lexical_receiver_paren(e) { paren(s) } else { s };
+            format!("{}{}", rs, postfix_suffix(e, &min_text))
+        }
+        _ => atom_text(e, &min_text),
+    }
+}
+
+fn full_sub(e: &E) -> String {
+    if e.is_atomic() {
+        full_inner(e)
+    } else {
+        paren(full_inner(e))
+    }
+}
+fn full_inner(e: &E) -> String {
+    match e {
+        E::Bin(op, l, r) => format!("{} {} {}", full_sub(l), op.text(), full_sub(r)),
+        E::Un(op, x) => format!("{}{}", op.text(), full_sub(x)),
+        E::Call(..) | E::Index(..) | E::Field(..) => {
+            let r = receiver(e);
+            let rs = if lexical_receiver_paren(e) { paren(full_inner(r)) } else { full_sub(r) };
+            format!("{}{}", rs, postfix_suffix(e, &full_sub))
+        }
+        _ => atom_text(e, &full_sub),
+    }
+}
+/// every non-atomic sub-expression (the root included) in parentheses
+pub fn full_text(e: &E) -> String {
+    full_sub(e)
+}
+
+// ------------------------------------------------------------------------------------------------
+// parser AST -> tree (spans, Parenthesis and AssignableKind::Expression erased)
+// ------------------------------------------------------------------------------------------------
+
+fn conv_body(b: &[Statement]) -> Result<E, String> {
+    if b.len() != 1 {
+        return Err(format!("block with {} statements", b.len()));
+    }
+    match &b[0].kind {
+        StatementKind::StatementExpression { value } => conv(value),
+        other => Err(format!("block statement is not an expression: {:?}", other).chars().take(120).collect()),
+    }
+}
+
+pub fn conv(e: &Expression) -> Result<E, String> {
+    let b2 = |op: B, a: &Expression, b: &Expression| -> Result<E, String> { Ok(bin(op, conv(a)?, conv(b)?)) };
+    Ok(match &e.kind {
+        EK::Parenthesis(x) => conv(x)?,
+        EK::Get(a) => conv_ass(a)?,
+        EK::Add(a, b) => b2(B::Add, a, b)?,
+        EK::Sub(a, b) => b2(B::Sub, a, b)?,
+        EK::Mul(a, b) => b2(B::Mul, a, b)?,
+        EK::Div(a, b) => b2(B::Div, a, b)?,
+        EK::AssertEq(a, b) => b2(B::Assert, a, b)?,
+        EK::And(a, b) => b2(B::And, a, b)?,
+        EK::Or(a, b) => b2(B::Or, a, b)?,
+        EK::Comparison(a, k, b) => {
+            let op = match k {
+                ComparisonKind::Equals => B::Eq,
+                ComparisonKind::NotEquals => B::Ne,
+                ComparisonKind::Greater => B::Gt,
+                ComparisonKind::GreaterEqual => B::Ge,
+                ComparisonKind::Less => B::Lt,
+                ComparisonKind::LessEqual => B::Le,
+            };
+            b2(op, a, b)?
+        }
+        EK::Neg(x) => un(U::Neg, conv(x)?),
+        EK::Not(x) => un(U::Not, conv(x)?),
+        EK::If(branches) => {
+            if branches.len() != 2 || branches[0].condition.is_none() || branches[1].condition.is_some() {
+                return Err(format!("if-expression with {} branches", branches.len()));
+            }
+            E::If(
+                Box::new(conv(branches[0].condition.as_ref().unwrap())?),
+                Box::new(conv_body(&branches[0].body)?),
+                Box::new(conv_body(&branches[1].body)?),
+            )
+        }
+        EK::Case { .. } => return Err("case-expression".into()),
+        EK::Function { params, body, pure, .. } => {
+            if *pure {
+                return Err("pure function".into());
+            }
+            E::Lambda(params.iter().map(|(i, _)| i.name.clone()).collect(), Box::new(conv_body(body)?))
+        }
+        EK::Blob { blob, fields } => {
+            let n = match &blob.kind {
+                TypeAssignableKind::Read(i) => i.name.clone(),
+                _ => return Err("qualified blob name".into()),
+            };
+            let mut fs = Vec::new();
+            for (k, v) in fields {
+                fs.push((k.clone(), conv(v)?));
+            }
+            E::Blob(n, fs)
+        }
+        EK::Tuple(v) => E::Tuple(v.iter().map(conv).collect::<Result<_, _>>()?),
+        EK::List(v) => E::List(v.iter().map(conv).collect::<Result<_, _>>()?),
+        EK::Float(f) => E::Float(*f),
+        EK::Int(i) => E::Int(*i),
+        EK::Str(s) => E::Str(s.clone()),
+        EK::Bool(b) => E::Bool(*b),
+        EK::Nil => E::Nil,
+    })
+}
+
+fn conv_ass(a: &Assignable) -> Result<E, String> {
+    Ok(match &a.kind {
+        AssignableKind::Read(i) => E::Name(i.name.clone()),
+        AssignableKind::Call(f, args) => E::Call(Box::new(conv_ass(f)?), args.iter().map(conv).collect::<Result<_, _>>()?),
+        AssignableKind::Access(x, i) => E::Field(Box::new(conv_ass(x)?), i.name.clone()),
+        AssignableKind::Index(x, i) => match &i.kind {
+            EK::Int(n) => E::Index(Box::new(conv_ass(x)?), *n),
+            _ => return Err("index is not an integer literal".into()),
+        },
+        AssignableKind::Expression(e) => conv(e)?,
+        AssignableKind::Variant { .. } => return Err("variant construction".into()),
+        AssignableKind::ArrowCall(..) => return Err("arrow call".into()),
+    })
+}
+
+pub enum Parsed {
+    Tree(E),
+    /// the AST holds something outside the tree type
+    Foreign(String),
+    Syntax(String),
+    Panic(String),
+}
+
+pub fn parse_text(text: &str) -> Parsed {
+    let src = format!("q :: {}\n", text);
+    let r = guarded(|| sylt_parser::tree(Path::new("/p/main.sy"), |_p: &Path| Ok(src.clone()), false));
+    let ast = match r {
+        Err((m, l)) => return Parsed::Panic(format!("{} at {}", m, l)),
+        Ok(Err(errs)) => {
+            let e = errs.first().map(vcore::err_info);
+            return Parsed::Syntax(match e {
+                Some(e) => format!("{} (line {} col {}..{})", vcore::first_line(&e.message), e.line, e.col_start, e.col_end),
+                None => "no error reported".into(),
+            });
+        }
+        Ok(Ok(ast)) => ast,
+    };
+    let stmts: Vec<&Statement> = ast.modules.iter().flat_map(|(_, m)| m.statements.iter()).filter(|s| !matches!(s.kind, StatementKind::EmptyStatement)).collect();
+    if stmts.len() != 1 {
+        return Parsed::Foreign(format!("{} top-level statements instead of 1", stmts.len()));
+    }
+    match &stmts[0].kind {
+        StatementKind::Definition { value, .. } => match conv(value) {
+            Ok(t) => Parsed::Tree(t),
+            Err(e) => Parsed::Foreign(e),
+        },
+        _ => Parsed::Foreign("not a definition".into()),
+    }
+}
+
+/// first node (pre-order) at which the two trees differ
+fn first_diff<'a>(exp: &'a E, got: &'a E) -> Option<(&'a E, &'a E)> {
+    if !exp.shallow_eq(got) {
+        return Some((exp, got));
+    }
+    for (a, b) in exp.kids().into_iter().zip(got.kids()) {
+        if let Some(d) = first_diff(a, b) {
+            return Some(d);
+        }
+    }
+    None
+}
+
+fn sanitize(s: &str) -> String {
+    let cut: String = s.chars().take_while(|c| *c != '\'' && *c != '(' && *c != '"').take(48).collect();
+    cut.trim().replace(' ', "-")
+}
+
+/// oracle (a) on one rendering
+fn check_rendering(tree: &E, which: &str, text: &str) -> Result<(), (String, String)> {
+    match parse_text(text) {
+        Parsed::Tree(got) => match first_diff(tree, &got) {
+            None => Ok(()),
+            Some((e, g)) => Err((
+                format!("C13/tree-mismatch/{}/{}-over-{}", which, e.class(), g.class()),
+                format!(
+                    "the {} rendering does not parse to the generating tree\ntext:      {}\nexpected:  {}\nparsed as: {}\nfirst difference: expected {} `{}`, parser has {} `{}`",
+                    which,
+                    text,
+                    full_text(tree),
+                    full_text(&got),
+                    e.kind_label(),
+                    min_text(e),
+                    g.kind_label(),
+                    min_text(g)
+                ),
+            )),
+        },
+        Parsed::Foreign(why) => Err((
+            format!("C13/tree-mismatch/{}/foreign-node", which),
+            format!("the {} rendering parses to a tree outside the operator set ({})\ntext: {}", which, why, text),
+        )),
+        Parsed::Syntax(msg) => Err((
+            format!("C13/syntax-error/{}/{}", which, sanitize(&msg)),
+            format!("the {} rendering is rejected by the parser: {}\ntext: {}\ntree: {}", which, msg, text, full_text(tree)),
+        )),
+        Parsed::Panic(msg) => Err((format!("C13/parser-panic/{}", which), format!("the parser panicked on the {} rendering: {}\ntext: {}", which, msg, text))),
+    }
+}
+
+/// oracle (a): both renderings parse to the generating tree
+fn check_tree(tree: &E, min: &str, full: &str) -> Result<(), (String, String)> {
+    check_rendering(tree, "min", min)?;
+    check_rendering(tree, "full", full)?;
+    Ok(())
+}
+
+fn count_parens(s: &str) -> usize {
+    s.bytes().filter(|b| *b == b'(').count()
+}
+
+/// distinct precedence levels (6 binary levels, unary, postfix) present in the tree
+fn levels(tree: &E) -> Vec<&'static str> {
+    let mut v: Vec<&'static str> = Vec::new();
+    tree.visit(&mut |n| {
+        let c = n.class();
+        if c != "atom" && !v.contains(&c) {
+            v.push(c);
+        }
+    });
+    v
+}
+
+fn nontrivial(tree: &E, min: &str, full: &str) -> bool {
+    count_parens(min) < count_parens(full) && levels(tree).len() >= 2
+}
+
+// ------------------------------------------------------------------------------------------------
+// oracle (b): evaluation of the well-typed sub-family
+// ------------------------------------------------------------------------------------------------
+
+const PRELUDE: &str = "Qb :: blob { n: int, r: float, p: bool }\nqb :: Qb { n: 5, r: 0.5, p: true }\nqt :: (7, 2.5, false)\nqf :: fn x: int -> int do\n    ret x * 2 + 1\nend\n";
+
+fn program(expr: &str) -> String {
+    format!("{}start :: fn do\n    print({})\nend\n", PRELUDE, expr)
+}
+
+#[derive(Clone, Copy, Debug, PartialEq)]
+enum V {
+    I(i64),
+    F(f64),
+    B(bool),
+}
+enum Stop {
+    AssertFailed,
+    Nan,
+    IllTyped(String),
+}
+
+fn ev(e: &E) -> Result<V, Stop> {
+    let ill = |s: &str| Err(Stop::IllTyped(s.to_string()));
+    let fl = |x: f64| if x.is_nan() { Err(Stop::Nan) } else { Ok(V::F(x)) };
+    match e {
+        E::Int(i) => Ok(V::I(*i)),
+        E::Float(f) => Ok(V::F(*f)),
+        E::Bool(b) => Ok(V::B(*b)),
+        E::Index(r, i) if **r == name("qt") => match i {
+            0 => Ok(V::I(7)),
+            1 => Ok(V::F(2.5)),
+            2 => Ok(V::B(false)),
+            _ => ill("index"),
+        },
+        E::Field(r, f) if **r == name("qb") => match f.as_str() {
+            "n" => Ok(V::I(5)),
+            "r" => Ok(V::F(0.5)),
+            "p" => Ok(V::B(true)),
+            _ => ill("field"),
+        },
+        E::Call(f, args) if **f == name("qf") && args.len() == 1 => match ev(&args[0])? {
+            V::I(x) => Ok(V::I(x.wrapping_mul(2).wrapping_add(1))),
+            _ => ill("argument"),
+        },
+        E::If(c, t, f) => match ev(c)? {
+            V::B(true) => ev(t),
+            V::B(false) => ev(f),
+            _ => ill("condition"),
+        },
+        E::Un(U::Neg, x) => match ev(x)? {
+            V::I(i) => Ok(V::I(i.wrapping_neg())),
+            V::F(f) => fl(-f),
+            _ => ill("neg"),
+        },
+        E::Un(U::Not, x) => match ev(x)? {
+            V::B(b) => Ok(V::B(!b)),
+            _ => ill("not"),
+        },
+        E::Bin(B::And, l, r) => match ev(l)? {
+            V::B(false) => Ok(V::B(false)),
+            V::B(true) => match ev(r)? {
+                V::B(b) => Ok(V::B(b)),
+                _ => ill("and"),
+            },
+            _ => ill("and"),
+        },
+        E::Bin(B::Or, l, r) => match ev(l)? {
+            V::B(true) => Ok(V::B(true)),
+            V::B(false) => match ev(r)? {
+                V::B(b) => Ok(V::B(b)),
+                _ => ill("or"),
+            },
+            _ => ill("or"),
+        },
+        E::Bin(op, l, r) => {
+            let a = ev(l)?;
+            let b = ev(r)?;
+            match (op, a, b) {
+                (B::Add, V::I(x), V::I(y)) => Ok(V::I(x.wrapping_add(y))),
+                (B::Sub, V::I(x), V::I(y)) => Ok(V::I(x.wrapping_sub(y))),
+                (B::Mul, V::I(x), V::I(y)) => Ok(V::I(x.wrapping_mul(y))),
+                (B::Div, V::I(x), V::I(y)) => fl(x as f64 / y as f64),
+                (B::Add, V::F(x), V::F(y)) => fl(x + y),
+                (B::Sub, V::F(x), V::F(y)) => fl(x - y),
+                (B::Mul, V::F(x), V::F(y)) => fl(x * y),
+                (B::Div, V::F(x), V::F(y)) => fl(x / y),
+                (B::Eq, x, y) if same_type(x, y) => Ok(V::B(x == y)),
+                (B::Ne, x, y) if same_type(x, y) => Ok(V::B(x != y)),
+                (B::Assert, x, y) if same_type(x, y) => {
+                    if x == y {
+                        Ok(V::B(true))
+                    } else {
+                        Err(Stop::AssertFailed)
+                    }
+                }
+                (B::Lt, V::I(x), V::I(y)) => Ok(V::B(x < y)),
+                (B::Le, V::I(x), V::I(y)) => Ok(V::B(x <= y)),
+                (B::Gt, V::I(x), V::I(y)) => Ok(V::B(x > y)),
+                (B::Ge, V::I(x), V::I(y)) => Ok(V::B(x >= y)),
+                (B::Lt, V::F(x), V::F(y)) => Ok(V::B(x < y)),
+                (B::Le, V::F(x), V::F(y)) => Ok(V::B(x <= y)),
+                (B::Gt, V::F(x), V::F(y)) => Ok(V::B(x > y)),
+                (B::Ge, V::F(x), V::F(y)) => Ok(V::B(x >= y)),
+                _ => ill("operand types"),
+            }
+        }
+        _ => ill("form outside the evaluated family"),
+    }
+}
+fn same_type(a: V, b: V) -> bool {
+    matches!((a, b), (V::I(_), V::I(_)) | (V::F(_), V::F(_)) | (V::B(_), V::B(_)))
+}
+fn show(v: V) -> String {
+    match v {
+        V::I(i) => syltmodel::fmt::lua_int(i),
+        V::F(f) => syltmodel::fmt::lua_float(f),
+        V::B(b) => format!("{}", b),
+    }
+}
+
+/// run one rendering; Ok((printed lines, "ok" | "assert-failed")) or a verdict to return
+fn run_rendering(which: &str, text: &str, labels: &mut Labels) -> Result<(Vec<String>, &'static str), Verdict> {
+    let src = program(text);
+    let out = compile(&Project::single(src.clone()));
+    let lua = match &out {
+        Outcome::Accepted(b) => b,
+        Outcome::Rejected { errors, .. } => {
+            labels.add(format!("eval-rejected:{}:{}", errors[0].kind, errors[0].sub));
+            if std::env::var("C13_SHOW_REJECTED").is_ok() {
+                eprintln!("rejected {}: {}\n{}", which, out.short(), text);
+            }
+            return Err(Verdict::Discard(format!("eval-rejected-{}", errors[0].kind)));
+        }
+        Outcome::Panicked { .. } => return Err(Verdict::Discard("eval-compiler-panicked".into())),
+    };
+    match run_lua(lua, 2_000_000) {
+        LuaOutcome::LoadError { class, .. } => Err(Verdict::Discard(format!("eval-lua-load-{}", class))),
+        LuaOutcome::Ran(t) => match t.terminal {
+            Terminal::Ok => Ok((t.lines, "ok")),
+            Terminal::AssertFailed => Ok((t.lines, "assert-failed")),
+            Terminal::OutOfBudget(_) => Err(Verdict::Discard("eval-lua-budget".into())),
+            Terminal::Unreachable(_) => Err(Verdict::Violation {
+                signature: format!("C13/value-mismatch/{}/unreachable", which),
+                detail: format!("the {} rendering ended in <!>\ntext: {}", which, text),
+            }),
+            Terminal::LuaError { class, msg } => Err(Verdict::Violation {
+                signature: format!("C13/value-mismatch/{}/lua-error-{}", which, class),
+                detail: format!("the {} rendering of a well-typed expression ended in a Lua error: {}\ntext: {}", which, msg, text),
+            }),
+        },
+    }
+}
+
+// ------------------------------------------------------------------------------------------------
+// generators
+// ------------------------------------------------------------------------------------------------
+
+const NAMES: [&str; 6] = ["a", "b", "c", "f", "g", "t"];
+const FIELDS: [&str; 3] = ["x", "y", "z"];
+const FLOATS: [f64; 6] = [0.5, 1.5, 2.0, 2.5, 0.25, 10.0];
+const STRS: [&str; 3] = ["s", "ab", ""];
+
+fn gen_atom(t: &mut Tape, d: usize) -> E {
+    let compound = if d >= 1 { 3 } else { 0 };
+    let k = t.weighted(&[8, 4, 2, 2, 2, 1, compound, compound, compound, compound, compound]);
+    let sd = (d.max(1) - 1).min(2);
+    match k {
+        0 => name(*t.pick(&NAMES)),
+        1 => E::Int(t.below(10) as i64),
+        2 => E::Float(*t.pick(&FLOATS)),
+        3 => E::Str(t.pick(&STRS).to_string()),
+        4 => E::Bool(t.bool()),
+        5 => E::Nil,
+        6 => {
+            let n = t.below(4);
+            E::Tuple((0..n).map(|_| gen_any(t, sd)).collect())
+        }
+        7 => {
+            let n = t.below(4);
+            E::List((0..n).map(|_| gen_any(t, sd)).collect())
+        }
+        8 => {
+            let n = t.below(3);
+            let ps = ["x", "y"][..n].iter().map(|s| s.to_string()).collect();
+            E::Lambda(ps, Box::new(gen_any(t, sd)))
+        }
+        9 => E::If(Box::new(gen_any(t, sd)), Box::new(gen_any(t, sd)), Box::new(gen_any(t, sd))),
+        _ => {
+            let n = t.below(3);
+            E::Blob("Bl".into(), (0..n).map(|i| (FIELDS[i].to_string(), gen_any(t, sd))).collect())
+        }
+    }
+}
+
+fn gen_postfix(t: &mut Tape, recv: E, d: usize) -> E {
+    let sd = (d.max(1) - 1).min(2);
+    match t.below(3) {
+        0 => E::Field(Box::new(recv), t.pick(&FIELDS).to_string()),
+        1 => E::Index(Box::new(recv), t.below(4) as i64),
+        _ => {
+            let n = t.below(3);
+            E::Call(Box::new(recv), (0..n).map(|_| gen_any(t, sd)).collect())
+        }
+    }
+}
+
+/// any tree of nesting depth <= d over all operators and atom kinds
+fn gen_any(t: &mut Tape, d: usize) -> E {
+    if d == 0 || t.exhausted() {
+        return gen_atom(t, 0);
+    }
+    match t.weighted(&[3, 12, 4, 4]) {
+        0 => gen_atom(t, d),
+        1 => {
+            let op = *t.pick(&ALL_BIN);
+            bin(op, gen_any(t, d - 1), gen_any(t, d - 1))
+        }
+        2 => un(if t.bool() { U::Not } else { U::Neg }, gen_any(t, d - 1)),
+        _ => {
+            let recv = gen_any(t, d - 1);
+            let mut e = gen_postfix(t, recv, d);
+            // chains
+            while t.chance(1, 3) {
+                e = gen_postfix(t, e, d);
+            }
+            e
+        }
+    }
+}
+
+#[derive(Clone, Copy, PartialEq)]
+enum Ty {
+    I,
+    F,
+    Bo,
+}
+
+/// well-typed by construction (ints with + - *, floats with / and + - *, comparisons, and/or/not, <=>)
+fn gen_typed(t: &mut Tape, ty: Ty, d: usize, ifs: usize) -> E {
+    let leaf = |t: &mut Tape| -> E {
+        match ty {
+            Ty::I => match t.weighted(&[6, 1, 1]) {
+                0 => E::Int(t.below(10) as i64),
+                1 => E::Index(Box::new(name("qt")), 0),
+                _ => E::Field(Box::new(name("qb")), "n".into()),
+            },
+            Ty::F => match t.weighted(&[6, 1, 1]) {
+                0 => E::Float(*t.pick(&FLOATS)),
+                1 => E::Index(Box::new(name("qt")), 1),
+                _ => E::Field(Box::new(name("qb")), "r".into()),
+            },
+            Ty::Bo => match t.weighted(&[6, 1, 1]) {
+                0 => E::Bool(t.bool()),
+                1 => E::Index(Box::new(name("qt")), 2),
+                _ => E::Field(Box::new(name("qb")), "p".into()),
+            },
+        }
+    };
+    if d == 0 || t.exhausted() {
+        return leaf(t);
+    }
+    let w_if = if ifs > 0 { 1 } else { 0 };
+    let mk_if = |t: &mut Tape| -> E {
+        let sd = (d - 1).min(2);
+        E::If(Box::new(gen_typed(t, Ty::Bo, sd, ifs - 1)), Box::new(gen_typed(t, ty, sd, ifs - 1)), Box::new(gen_typed(t, ty, sd, ifs - 1)))
+    };
+    match ty {
+        Ty::I => match t.weighted(&[2, 9, 2, 1, w_if]) {
+            0 => leaf(t),
+            1 => {
+                let op = *t.pick(&[B::Add, B::Sub, B::Mul]);
+                bin(op, gen_typed(t, Ty::I, d - 1, ifs), gen_typed(t, Ty::I, d - 1, ifs))
+            }
+            2 => un(U::Neg, gen_typed(t, Ty::I, d - 1, ifs)),
+            3 => E::Call(Box::new(name("qf")), vec![gen_typed(t, Ty::I, (d - 1).min(2), ifs)]),
+            _ => mk_if(t),
+        },
+        Ty::F => match t.weighted(&[2, 4, 3, 3, 1, w_if]) {
+            0 => leaf(t),
+            1 => bin(B::Div, gen_typed(t, Ty::I, d - 1, ifs), gen_typed(t, Ty::I, d - 1, ifs)),
+            2 => bin(B::Div, gen_typed(t, Ty::F, d - 1, ifs), gen_typed(t, Ty::F, d - 1, ifs)),
+            3 => {
+                let op = *t.pick(&[B::Add, B::Sub, B::Mul]);
+                bin(op, gen_typed(t, Ty::F, d - 1, ifs), gen_typed(t, Ty::F, d - 1, ifs))
+            }
+            4 => un(U::Neg, gen_typed(t, Ty::F, d - 1, ifs)),
+            _ => mk_if(t),
+        },
+        Ty::Bo => match t.weighted(&[1, 4, 2, 1, 5, 2, 3, w_if]) {
+            0 => leaf(t),
+            1 => {
+                let op = *t.pick(&[B::Eq, B::Ne, B::Lt, B::Le, B::Gt, B::Ge]);
+                bin(op, gen_typed(t, Ty::I, d - 1, ifs), gen_typed(t, Ty::I, d - 1, ifs))
+            }
+            2 => {
+                let op = *t.pick(&[B::Lt, B::Le, B::Gt, B::Ge, B::Eq, B::Ne]);
+                bin(op, gen_typed(t, Ty::F, d - 1, ifs), gen_typed(t, Ty::F, d - 1, ifs))
+            }
+            3 => {
+                let op = *t.pick(&[B::Eq, B::Ne]);
+                bin(op, gen_typed(t, Ty::Bo, d - 1, ifs), gen_typed(t, Ty::Bo, d - 1, ifs))
+            }
+            4 => {
+                let op = *t.pick(&[B::And, B::Or]);
+                bin(op, gen_typed(t, Ty::Bo, d - 1, ifs), gen_typed(t, Ty::Bo, d - 1, ifs))
+            }
+            5 => un(U::Not, gen_typed(t, Ty::Bo, d - 1, ifs)),
+            6 => {
+                let ot = [Ty::I, Ty::Bo, Ty::F][t.weighted(&[3, 2, 1])];
+                bin(B::Assert, gen_typed(t, ot, d - 1, ifs), gen_typed(t, ot, d - 1, ifs))
+            }
+            _ => mk_if(t),
+        },
+    }
+}
+
+// ------------------------------------------------------------------------------------------------
+// shrinking
+// ------------------------------------------------------------------------------------------------
+
+/// all single-step simplifications of a tree: a node replaced by one of its children or by a literal
+fn rewrites(e: &E) -> Vec<E> {
+    let mut out: Vec<E> = Vec::new();
+    let kids = e.kids();
+    for k in &kids {
+        out.push((*k).clone());
+    }
+    if !kids.is_empty() {
+        for a in [name("a"), E::Int(1), E::Float(1.5), E::Bool(true)] {
+            out.push(a);
+        }
+    } else if !matches!(e, E::Int(_) | E::Float(_) | E::Bool(_)) && *e != name("a") {
+        out.push(name("a"));
+    }
+    for (i, k) in kids.iter().enumerate() {
+        for r in rewrites(k) {
+            out.push(e.with_kid(i, r));
+        }
+    }
+    out
+}
+
+// ------------------------------------------------------------------------------------------------
+// the check
+// ------------------------------------------------------------------------------------------------
+
+#[derive(Clone, Debug, Serialize, Deserialize)]
+pub struct Case {
+    pub tree: E,
+    /// also compile + run both renderings (well-typed sub-family)
+    pub eval: bool,
+}
+
+impl Check for C13 {
+    type Case = Case;
     fn id(&self) -> &'static str {
         "C13"
     }
-    fn generate(&self, _u: &mut Unstructured, _tier: Tier) -> Option<u8> {
-        None
+
+    fn generate(&self, u: &mut Unstructured, tier: Tier) -> Option<Case> {
+        let mut t = Tape::new(u);
+        let eval = t.chance(tier.pick(3, 2), 100);
+        if eval {
+            let ty = [Ty::Bo, Ty::I, Ty::F][t.weighted(&[5, 3, 2])];
+            let d = 1 + t.below(6);
+            Some(Case { tree: gen_typed(&mut t, ty, d, 2), eval })
+        } else {
+            let d = 1 + t.below(6);
+            Some(Case { tree: gen_any(&mut t, d), eval })
+        }
     }
-    fn evaluate(&self, _case: &u8, _labels: &mut Labels) -> Verdict {
-        Verdict::Discard("stub".into())
+
+    fn evaluate(&self, case: &Case, labels: &mut Labels) -> Verdict {
+        let tree = &case.tree;
+        let min = min_text(tree);
+        let full = full_text(tree);
+        if let Err((signature, detail)) = check_tree(tree, &min, &full) {
+            return Verdict::Violation { signature, detail };
+        }
+        // classification
+        let mut kinds: Vec<&'static str> = Vec::new();
+        let mut silent = false;
+        let mut chain = false;
+        tree.visit(&mut |n| {
+            let k = n.kind_label();
+            if !kinds.contains(&k) {
+                kinds.push(k);
+            }
+            match n {
+                E::Bin(op, l, r) if op.level() == FACTOR && (matches!(**l, E::Un(..)) || matches!(**r, E::Un(..))) => silent = true,
+                E::Un(_, x) if matches!(**x, E::Un(..)) || matches!(**x, E::Bin(o, ..) if o.level() == FACTOR) => silent = true,
+                _ => {}
+            }
+            if n.is_postfix() && receiver(n).is_postfix() {
+                chain = true;
+            }
+        });
+        for k in &kinds {
+            labels.add(format!("has:{}", k));
+        }
+        if silent {
+            labels.add("table-silent-parenthesised");
+        }
+        if chain {
+            labels.add("postfix-chain");
+        }
+        let lv = levels(tree).len();
+        labels.add(format!("levels:{}", lv.min(6)));
+        labels.add(format!("depth:{}", tree.op_depth().min(7)));
+        let nt = nontrivial(tree, &min, &full);
+
+        if case.eval {
+            labels.add("eval");
+            let expected: (Vec<String>, &'static str) = match ev(tree) {
+                Ok(v) => (vec![show(v)], "ok"),
+                Err(Stop::AssertFailed) => (Vec::new(), "assert-failed"),
+                Err(Stop::Nan) => return Verdict::Discard("eval-nan".into()),
+                Err(Stop::IllTyped(_)) => return Verdict::Discard("eval-ill-typed".into()),
+            };
+            labels.add(format!("eval-expect:{}", expected.1));
+            for (which, text) in [("min", &min), ("full", &full)] {
+                let got = match run_rendering(which, text, labels) {
+                    Ok(g) => g,
+                    Err(v) => return v,
+                };
+                if got.1 != expected.1 || got.0 != expected.0 {
+                    let class = if got.1 != expected.1 { "terminal" } else { "printed" };
+                    return Verdict::Violation {
+                        signature: format!("C13/value-mismatch/{}/{}", which, class),
+                        detail: format!(
+                            "the {} rendering does not evaluate to what the tree denotes\ntext: {}\ntree: {}\nexpected: {:?} then {}\nobserved: {:?} then {}",
+                            which, text, full, expected.0, expected.1, got.0, got.1
+                        ),
+                    };
+                }
+            }
+            labels.add("eval-agreed");
+        }
+        Verdict::Pass { nontrivial: nt }
     }
+
+    fn simplify_at(&self, case: &Case, idx: usize) -> Step<Case> {
+        match rewrites(&case.tree).into_iter().nth(idx) {
+            Some(t) => Step::Candidate(Case { tree: t, eval: case.eval }),
+            None => Step::End,
+        }
+    }
+
+    fn sample(&self, case: &Case) -> Value {
+        json!({ "minimal": min_text(&case.tree), "full": full_text(&case.tree), "evaluated": case.eval })
+    }
+
     fn rule(&self) -> String {
-        "stub".into()
+        "cases: own expression trees over the 13 binary operators, unary -/not, postfix call/index/field and all atom kinds \
+         (int/float/str/bool/nil literals, names, tuple, list, lambda, if-expression, blob instantiation): (1) exhaustive enumeration \
+         of all trees up to the operator depth given in `exhaustive_*`, (2) tape-driven random trees up to nesting depth 6, of which a \
+         few per cent come from a type-directed generator and are also compiled and run. Each tree is rendered with the minimal \
+         parentheses the documented table requires (parentheses are kept where the table is silent: unary next to * /, unary of unary) \
+         and fully parenthesised; oracle: both parse (sylt_parser::tree, spans and Parenthesis erased) to the generating tree, and for \
+         evaluated cases both print the value / fail the assertion the reference evaluation of the tree predicts; \
+         non-trivial = the minimal rendering has fewer parentheses than the full one and the tree has >= 2 distinct precedence levels \
+         (6 binary levels, unary, postfix); distinct by hash of the case (enumerated trees are distinct by construction)"
+            .into()
     }
-    fn health(&self, _s: &vcore::Stats) -> Result<(), String> {
-        Err("check not built yet".into())
+
+    fn assumptions(&self) -> Vec<String> {
+        vec![
+            "`unary binds tighter than + -, comparisons and the boolean operators` is read as also covering `<=>` (looser than `or`)".into(),
+            "the table is silent on unary next to * / and on unary applied to unary: parentheses are written in both renderings there".into(),
+            "self-delimiting forms (tuple, list, `fn .. end`, `if .. end`, blob literal) count as atoms".into(),
+            "evaluation: int = wrapping i64, / yields float, IEEE doubles printed with %.14g (+.0), and/or short-circuit, a <=> b yields true or fails the assertion; NaN results are discarded".into(),
+            "mini-Lua (harness/minilua) agrees with Lua 5.3 on the subset the emitter uses (validated by ./check selftest)".into(),
+        ]
     }
+
+    fn health(&self, s: &Stats) -> Result<(), String> {
+        if s.evaluations < 5_000 {
+            return Ok(());
+        }
+        let random = s.evaluations - s.extra.get("exhaustive_trees_total").and_then(|v| v.as_u64()).unwrap_or(0);
+        if random == 0 {
+            return Ok(());
+        }
+        let frac = |l: &str| s.label(l) as f64 / random as f64;
+        for k in ["assert", "or", "and", "comp", "term", "factor", "neg", "not", "call", "index", "field"] {
+            if frac(&format!("has:{}", k)) < 0.10 {
+                return Err(format!("operator class `{}` appears in only {:.1}% of the random trees", k, 100.0 * frac(&format!("has:{}", k))));
+            }
+        }
+        for k in ["name", "int", "float", "str", "bool", "nil", "tuple", "list", "lambda", "if", "blob"] {
+            if frac(&format!("has:{}", k)) < 0.01 {
+                return Err(format!("atom kind `{}` appears in only {:.2}% of the random trees", k, 100.0 * frac(&format!("has:{}", k))));
+            }
+        }
+        if frac("postfix-chain") < 0.02 || frac("table-silent-parenthesised") < 0.02 {
+            return Err("postfix chains / table-silent cases are (nearly) absent".into());
+        }
+        let ev = s.label("eval");
+        if ev >= 200 {
+            let agreed = s.label("eval-agreed");
+            if (agreed as f64) < 0.85 * ev as f64 {
+                return Err(format!("only {} of {} evaluated cases were accepted and run (discards: {:?})", agreed, ev, s.discards));
+            }
+            if s.label("eval-expect:assert-failed") == 0 || s.label("eval-expect:ok") == 0 {
+                return Err("evaluated cases do not cover both outcomes (value printed / assertion failed)".into());
+            }
+        }
+        if (s.nontrivial as f64) < 0.3 * s.evaluations as f64 {
+            return Err(format!("only {} of {} cases are non-trivial", s.nontrivial, s.evaluations));
+        }
+        Ok(())
+    }
+
+    fn extra_phase(&self, cfg: &RunCfg, stats: &mut Stats) -> Vec<Found> {
+        let mut found: BTreeMap<String, (usize, String, String, Value)> = BTreeMap::new();
+        let mut total = 0u64;
+        let mut failed = 0u64;
+        let mut total_nt = 0u64;
+        let mut describe: Vec<Value> = Vec::new();
+
+        // bound 1 (both tiers): all trees of operator depth <= 2 over all 13 binary + 2 unary operators and 4 atoms
+        let atoms_q = vec![
+            name("a"),
+            E::Int(1),
+            E::Call(Box::new(name("f")), vec![name("x")]),
+            E::If(Box::new(name("c")), Box::new(name("x")), Box::new(name("y"))),
+        ];
+        let r = enumerate(&atoms_q, &ALL_BIN, 2, cfg.workers.max(1));
+        describe.push(json!({"operator_depth_max": 2, "binary_operators": 13, "unary_operators": 2,
+            "atoms": atoms_q.iter().map(min_text).collect::<Vec<_>>(), "trees": r.total, "nontrivial": r.nontrivial}));
+        total += r.total;
+        failed += r.failed;
+        total_nt += r.nontrivial;
+        merge_found(&mut found, r.found);
+        let mut samples = r.samples;
+        samples.truncate(1);
+
+        // three pinned, evaluated examples (smoke test of oracle (b); one becomes an evidence sample)
+        let i = |n: i64| E::Int(n);
+        let pinned = vec![
+            bin(B::Sub, bin(B::Sub, bin(B::Add, i(1), bin(B::Mul, i(2), i(3))), i(4)), i(5)),
+            bin(
+                B::Or,
+                bin(B::And, bin(B::Lt, bin(B::Div, bin(B::Div, E::Float(7.0), E::Float(2.0)), E::Float(2.0)), E::Float(2.0)), un(U::Not, E::Bool(false))),
+                E::Bool(false),
+            ),
+            bin(B::Assert, bin(B::Eq, bin(B::Sub, i(2), i(3)), un(U::Neg, i(1))), E::Bool(true)),
+        ];
+        for (k, tree) in pinned.into_iter().enumerate() {
+            let case = Case { tree, eval: true };
+            let mut l = Labels::default();
+            stats.evaluations += 1;
+            match self.evaluate(&case, &mut l) {
+                Verdict::Pass { nontrivial } => {
+                    stats.passed += 1;
+                    if nontrivial {
+                        stats.nontrivial += 1;
+                        stats.distinct_nontrivial.insert(hash64(&("C13-pinned", k)));
+                    }
+                    if k == 1 {
+                        let mut v = self.sample(&case);
+                        v["value"] = json!(ev(&case.tree).ok().map(show));
+                        samples.push(v);
+                    }
+                }
+                Verdict::Discard(r) => {
+                    *stats.discards.entry(format!("pinned-{}", r)).or_default() += 1;
+                }
+                Verdict::Violation { signature, detail } => {
+                    let case_json = serde_json::to_value(&case).unwrap_or(Value::Null);
+                    let mut one = BTreeMap::new();
+                    one.insert(signature, (case.tree.size(), min_text(&case.tree), detail, case_json));
+                    merge_found(&mut found, one);
+                }
+            }
+        }
+
+        if cfg.tier == Tier::Thorough {
+            // bound 2: depth <= 3 over one/two operators per level and one atom
+            let atoms_t = vec![name("a")];
+            let r = enumerate(&atoms_t, &CLASS_BIN, 3, cfg.workers.max(1));
+            describe.push(json!({"operator_depth_max": 3, "binary_operators": CLASS_BIN.iter().map(|b| b.text()).collect::<Vec<_>>(),
+                "unary_operators": 2, "atoms": ["a"], "trees": r.total, "nontrivial": r.nontrivial}));
+            total += r.total;
+            failed += r.failed;
+            total_nt += r.nontrivial;
+            merge_found(&mut found, r.found);
+        }
+
+        stats.evaluations += total;
+        stats.passed += total - failed;
+        stats.nontrivial += total_nt;
+        // enumerated trees are pairwise distinct by construction; keys are synthetic (capped to keep the set small)
+        let cap = total_nt.min(2_000_000);
+        for i in 0..cap {
+            stats.distinct_nontrivial.insert(hash64(&("C13-enumerated", i)));
+        }
+        stats.extra.insert("exhaustive".into(), json!(true));
+        stats.extra.insert("exhaustive_bounds".into(), json!(describe));
+        stats.extra.insert("exhaustive_trees_total".into(), json!(total));
+        stats.extra.insert("exhaustive_nontrivial_total".into(), json!(total_nt));
+        stats.extra.insert("exhaustive_distinct_counted".into(), json!(cap));
+        // keep room for enumerated samples next to the random ones
+        stats.samples.truncate(5 - samples.len().min(2));
+        for s in samples.drain(..) {
+            if stats.samples.len() < 5 {
+                stats.samples.push(s);
+            }
+        }
+        found
+            .into_iter()
+            .map(|(signature, (_, _, detail, case_json))| Found { signature, detail, case_json })
+            .collect()
+    }
+}
+
+struct EnumResult {
+    total: u64,
+    failed: u64,
+    nontrivial: u64,
+    /// signature -> (size, text, detail, case) of the smallest failing tree
+    found: BTreeMap<String, (usize, String, String, Value)>,
+    samples: Vec<Value>,
+}
+
+fn merge_found(into: &mut BTreeMap<String, (usize, String, String, Value)>, from: BTreeMap<String, (usize, String, String, Value)>) {
+    for (k, v) in from {
+        match into.get(&k) {
+            Some(old) if (old.0, &old.1) <= (v.0, &v.1) => {}
+            _ => {
+                into.insert(k, v);
+            }
+        }
+    }
+}
+
+/// all trees of operator depth <= d
+fn all_trees(atoms: &[E], bins: &[B], d: usize) -> Vec<E> {
+    let mut cur: Vec<E> = atoms.to_vec();
+    for _ in 0..d {
+        let mut next: Vec<E> = atoms.to_vec();
+        for op in [U::Neg, U::Not] {
+            for x in &cur {
+                next.push(un(op, x.clone()));
+            }
+        }
+        for op in bins {
+            for l in &cur {
+                for r in &cur {
+                    next.push(bin(*op, l.clone(), r.clone()));
+                }
+            }
+        }
+        cur = next;
+    }
+    cur
+}
+
+/// Enumerates every tree of operator depth <= d (d >= 1) and applies oracle (a); the top level is split into
+/// work items (one per unary operator, one per (binary operator, left operand)) spread over threads.
+fn enumerate(atoms: &[E], bins: &[B], d: usize, threads: usize) -> EnumResult {
+    let lower = all_trees(atoms, bins, d - 1);
+    let n = lower.len();
+    // items: 0 = the atoms, 1..=2 = unary operators, then bins.len() * n binary items
+    let n_items = 3 + bins.len() * n;
+    let next = AtomicUsize::new(0);
+    let results: Vec<EnumResult> = std::thread::scope(|s| {
+        let handles: Vec<_> = (0..threads)
+            .map(|_| {
+                std::thread::Builder::new()
+                    .stack_size(64 << 20)
+                    .spawn_scoped(s, || {
+                        let mut res = EnumResult { total: 0, failed: 0, nontrivial: 0, found: BTreeMap::new(), samples: Vec::new() };
+                        let one = |tree: &E, res: &mut EnumResult| {
+                            res.total += 1;
+                            let min = min_text(tree);
+                            let full = full_text(tree);
+                            match check_tree(tree, &min, &full) {
+                                Ok(()) => {
+                                    if nontrivial(tree, &min, &full) {
+                                        res.nontrivial += 1;
+                                    }
+                                }
+                                Err((sig, detail)) => {
+                                    res.failed += 1;
+                                    let key = (tree.size(), min.clone());
+                                    let better = match res.found.get(&sig) {
+                                        Some(old) => (key.0, &key.1) < (old.0, &old.1),
+                                        None => true,
+                                    };
+                                    if better {
+                                        let case = serde_json::to_value(Case { tree: tree.clone(), eval: false }).unwrap_or(Value::Null);
+                                        res.found.insert(sig, (key.0, key.1, detail, case));
+                                    }
+                                }
+                            }
+                        };
+                        loop {
+                            let item = next.fetch_add(1, Ordering::Relaxed);
+                            if item >= n_items {
+                                break;
+                            }
+                            if item == 0 {
+                                for a in atoms {
+                                    one(a, &mut res);
+                                }
+                            } else if item <= 2 {
+                                let op = if item == 1 { U::Neg } else { U::Not };
+                                for x in &lower {
+                                    one(&un(op, x.clone()), &mut res);
+                                }
+                            } else {
+                                let k = item - 3;
+                                let op = bins[k / n];
+                                let l = &lower[k % n];
+                                for r in &lower {
+                                    let tree = bin(op, l.clone(), r.clone());
+                                    if k == 7 * n / 11 && res.samples.is_empty() && r.op_depth() + 1 == d && nontrivial(&tree, &min_text(&tree), &full_text(&tree)) {
+                                        res.samples.push(json!({"minimal": min_text(&tree), "full": full_text(&tree), "evaluated": false, "enumerated": true}));
+                                    }
+                                    one(&tree, &mut res);
+                                }
+                            }
+                        }
+                        res
+                    })
+                    .expect("spawn")
+            })
+            .collect();
+        handles.into_iter().map(|h| h.join().expect("enumeration thread died")).collect()
+    });
+    let mut out = EnumResult { total: 0, failed: 0, nontrivial: 0, found: BTreeMap::new(), samples: Vec::new() };
+    for r in results {
+        out.total += r.total;
+        out.failed += r.failed;
+        out.nontrivial += r.nontrivial;
+        merge_found(&mut out.found, r.found);
+        out.samples.extend(r.samples);
+    }
+    out.samples.sort_by_key(|v| v.to_string());
+    out.samples.truncate(2);
+    out
 }
